@@ -10,24 +10,29 @@ package core
 // inclusion proofs served must validate against the data hash of their block.
 
 import (
+	"bytes"
 	"context"
 	"crypto/sha256"
 	"errors"
 	"fmt"
+	"sort"
 	"testing"
 	"time"
 
 	dbm "github.com/tendermint/tm-db"
 
+	abcicli "github.com/tendermint/tendermint/abci/client"
 	abci "github.com/tendermint/tendermint/abci/types"
 	"github.com/tendermint/tendermint/crypto/ed25519"
 	"github.com/tendermint/tendermint/crypto/merkle"
 	vg "github.com/tendermint/tendermint/internal/verifgen"
 	tmjson "github.com/tendermint/tendermint/libs/json"
 	"github.com/tendermint/tendermint/libs/log"
+	tmsync "github.com/tendermint/tendermint/libs/sync"
 	lrpc "github.com/tendermint/tendermint/light/rpc"
-	tmstate "github.com/tendermint/tendermint/proto/tendermint/state"
-	tmversion "github.com/tendermint/tendermint/proto/tendermint/version"
+	mmock "github.com/tendermint/tendermint/mempool/mock"
+	tmproto "github.com/tendermint/tendermint/proto/tendermint/types"
+	"github.com/tendermint/tendermint/proxy"
 	rpcclient "github.com/tendermint/tendermint/rpc/client"
 	ctypes "github.com/tendermint/tendermint/rpc/core/types"
 	rpctypes "github.com/tendermint/tendermint/rpc/jsonrpc/types"
@@ -35,7 +40,6 @@ import (
 	"github.com/tendermint/tendermint/state/txindex/kv"
 	"github.com/tendermint/tendermint/store"
 	"github.com/tendermint/tendermint/types"
-	"github.com/tendermint/tendermint/version"
 )
 
 func c20sSum(b []byte) []byte { s := sha256.Sum256(b); return s[:] }
@@ -79,6 +83,27 @@ func (c20sNode) TxSearch(ctx context.Context, query string, prove bool, page, pe
 }
 func (c20sNode) Status(ctx context.Context) (*ctypes.ResultStatus, error) {
 	return &ctypes.ResultStatus{SyncInfo: ctypes.SyncInfo{LatestBlockHeight: env.BlockStore.Height()}}, nil
+}
+
+// the ABCI application: DeliverTx results as scripted by the harness, events in BeginBlock / EndBlock
+type c20sApp struct {
+	abci.BaseApplication
+	results map[string]*abci.ResponseDeliverTx
+	height  int64
+}
+
+func (a *c20sApp) BeginBlock(abci.RequestBeginBlock) abci.ResponseBeginBlock {
+	return abci.ResponseBeginBlock{Events: []abci.Event{{Type: "begin"}}}
+}
+func (a *c20sApp) DeliverTx(req abci.RequestDeliverTx) abci.ResponseDeliverTx {
+	return *a.results[string(req.Tx)]
+}
+func (a *c20sApp) EndBlock(abci.RequestEndBlock) abci.ResponseEndBlock {
+	return abci.ResponseEndBlock{Events: []abci.Event{{Type: "end"}}}
+}
+func (a *c20sApp) Commit() abci.ResponseCommit {
+	a.height++
+	return abci.ResponseCommit{Data: c20sSum([]byte{byte(a.height), 'a'})}
 }
 
 // stub light client over the block store's own headers
@@ -192,51 +217,112 @@ func TestVerifC20Server(t *testing.T) {
 		ss := sm.NewStore(dbm.NewMemDB(), sm.StoreOptions{DiscardABCIResponses: false})
 		txi := kv.NewTxIndex(dbm.NewMemDB())
 		SetEnvironment(&Environment{BlockStore: bs, StateStore: ss, TxIndexer: txi, Logger: log.NewNopLogger()})
-		var vs []*types.Validator
+		// The chain is produced by the REAL state transition: State.MakeBlock fills every header from the
+		// state (LastResultsHash, AppHash, ...), BlockExecutor.ApplyBlock validates the block, runs it on an
+		// ABCI application whose DeliverTx results are scripted, stores the ABCI responses and computes the
+		// next state (updateState).  Blocks with and without transactions alternate.
+		var privs []types.MockPV
 		for i := 0; i < 1+r.Intn(3); i++ {
-			vs = append(vs, types.NewValidator(ed25519.GenPrivKeyFromSecret([]byte{byte(k), byte(i), 's'}).PubKey(), 10))
+			privs = append(privs, types.NewMockPVWithParams(ed25519.GenPrivKeyFromSecret([]byte{byte(k), byte(i), 's'}), false, false))
 		}
-		vals := types.NewValidatorSet(vs)
+		sort.Slice(privs, func(i, j int) bool { // validator-set order: equal powers, by address
+			return bytes.Compare(privs[i].PrivKey.PubKey().Address(), privs[j].PrivKey.PubKey().Address()) < 0
+		})
+		var gvals []types.GenesisValidator
+		var pvs []types.PrivValidator
+		for _, pv := range privs {
+			pk := pv.PrivKey.PubKey()
+			gvals = append(gvals, types.GenesisValidator{Address: pk.Address(), PubKey: pk, Power: 10})
+			pvs = append(pvs, pv)
+		}
+		genTime := time.Unix(1700000000, 0).UTC()
+		state, err := sm.MakeGenesisState(&types.GenesisDoc{ChainID: "c20-server", GenesisTime: genTime, InitialHeight: 1,
+			ConsensusParams: types.DefaultConsensusParams(), Validators: gvals})
+		if err != nil {
+			t.Fatal(err)
+		}
+		if err := ss.Save(state); err != nil {
+			t.Fatal(err)
+		}
+		app := &c20sApp{results: map[string]*abci.ResponseDeliverTx{}}
+		cc := abcicli.NewLocalClient(new(tmsync.Mutex), app)
+		if err := cc.Start(); err != nil {
+			t.Fatal(err)
+		}
+		blockExec := sm.NewBlockExecutor(ss, log.NewNopLogger(), proxy.NewAppConnConsensus(cc), mmock.Mempool{}, sm.EmptyEvidencePool{})
+		vals := state.Validators
 		n := int64(4 + r.Intn(3))
-		lastID, lastCommit, lastResults := types.BlockID{}, types.NewCommit(0, 0, types.BlockID{}, nil), []byte(nil)
+		lastCommit := types.NewCommit(0, 0, types.BlockID{}, nil)
 		var blocks []*types.Block
+		var stateLRH, nextLRH [][]byte // State.LastResultsHash after block h; LastResultsHash of header h+1
 		for h := int64(1); h <= n; h++ {
 			var txs []types.Tx
 			ntx := r.Intn(7)
+			if r.Chance(35) {
+				ntx = 0
+			}
 			if h == 2 {
 				ntx = 3 + r.Intn(4)
 			}
+			if h == 3 { // an empty block right after one with transactions
+				ntx = 0
+			}
 			for i := 0; i < ntx; i++ {
-				txs = append(txs, types.Tx(append([]byte{byte(k), byte(h), byte(i)}, r.Bytes(r.Intn(4))...)))
-			}
-			b := types.MakeBlock(h, txs, lastCommit, nil)
-			b.Header.Populate(tmversion.Consensus{Block: version.BlockProtocol, App: 1}, "c20-server", time.Unix(1700000000+h, 0).UTC(), lastID,
-				vals.Hash(), vals.Hash(), c20sSum([]byte("params")), c20sSum([]byte{byte(h), 'a'}), lastResults, vals.Validators[0].Address)
-			ps := b.MakePartSet(types.BlockPartSizeBytes)
-			id := types.BlockID{Hash: b.Hash(), PartSetHeader: ps.Header()}
-			var sigs []types.CommitSig
-			for i, v := range vals.Validators {
-				sigs = append(sigs, types.CommitSig{BlockIDFlag: types.BlockIDFlagCommit, ValidatorAddress: v.Address,
-					Timestamp: b.Time.Add(time.Second), Signature: c20sSum([]byte{byte(k), byte(h), byte(i)})})
-			}
-			commit := types.NewCommit(h, 0, id, sigs)
-			bs.SaveBlock(b, ps, commit)
-			resp := &tmstate.ABCIResponses{BeginBlock: &abci.ResponseBeginBlock{Events: []abci.Event{{Type: "begin"}}},
-				EndBlock: &abci.ResponseEndBlock{Events: []abci.Event{{Type: "end"}}}}
-			for i, tx := range txs {
-				d := &abci.ResponseDeliverTx{Code: uint32(r.Intn(3)), Data: r.Bytes(r.Intn(4)), Log: "l", GasWanted: int64(r.Intn(99)) - 1,
+				tx := types.Tx(append([]byte{byte(k), byte(h), byte(i)}, r.Bytes(r.Intn(4))...))
+				txs = append(txs, tx)
+				app.results[string(tx)] = &abci.ResponseDeliverTx{Code: uint32(r.Intn(3)), Data: r.Bytes(r.Intn(4)), Log: "l", GasWanted: int64(r.Intn(99)) - 1,
 					GasUsed: int64(r.Intn(1 << 20)), Events: []abci.Event{{Type: "tx"}}}
-				resp.DeliverTxs = append(resp.DeliverTxs, d)
-				if err := txi.Index(&abci.TxResult{Height: h, Index: uint32(i), Tx: tx, Result: *d}); err != nil {
+			}
+			b, ps := state.MakeBlock(h, txs, lastCommit, nil, state.Validators.GetProposer().Address)
+			id := types.BlockID{Hash: b.Hash(), PartSetHeader: ps.Header()}
+			if h > 1 {
+				nextLRH = append(nextLRH, b.LastResultsHash)
+			}
+			valsH := state.Validators
+			state, _, err = blockExec.ApplyBlock(state, id, b)
+			if err != nil {
+				t.Fatalf("ApplyBlock %d: %v", h, err)
+			}
+			stateLRH = append(stateLRH, state.LastResultsHash)
+			commit, err := types.MakeCommit(id, h, 0, types.NewVoteSet("c20-server", h, 0, tmproto.PrecommitType, valsH), pvs, genTime.Add(time.Duration(h)*time.Second))
+			if err != nil {
+				t.Fatalf("MakeCommit %d: %v", h, err)
+			}
+			bs.SaveBlock(b, ps, commit)
+			for i, tx := range txs {
+				if err := txi.Index(&abci.TxResult{Height: h, Index: uint32(i), Tx: tx, Result: *app.results[string(tx)]}); err != nil {
 					t.Fatal(err)
 				}
 			}
-			if err := ss.SaveABCIResponses(h, resp); err != nil {
-				t.Fatal(err)
-			}
 			blocks = append(blocks, b)
-			lastID, lastCommit = id, commit
-			lastResults = sm.ABCIResponsesResultsHash(resp)
+			lastCommit = commit
+		}
+		{ // the header the state would give block n+1
+			b, _ := state.MakeBlock(n+1, nil, lastCommit, nil, state.Validators.GetProposer().Address)
+			nextLRH = append(nextLRH, b.LastResultsHash)
+		}
+		for h := int64(1); h <= n; h++ {
+			id := cs.NextID()
+			if !cs.Want(id) {
+				continue
+			}
+			resp, err := ss.LoadABCIResponses(h)
+			if err != nil {
+				t.Fatalf("LoadABCIResponses %d: %v", h, err)
+			}
+			var rs, human []string
+			for _, d := range resp.DeliverTxs {
+				rs = append(rs, vg.Tup(vg.Z(int64(d.Code)), vg.Hx(d.Data), vg.Z(d.GasWanted), vg.Z(d.GasUsed)))
+				human = append(human, fmt.Sprintf("{code %d data %x gas %d/%d}", d.Code, d.Data, d.GasWanted, d.GasUsed))
+			}
+			var ntxs []int
+			for _, b := range blocks[:h] {
+				ntxs = append(ntxs, len(b.Data.Txs))
+			}
+			cs.Add(id, "server/chain-results", true,
+				vg.App("CChainResults", vg.Z(h), vg.L(rs), vg.Hx(stateLRH[h-1]), vg.Hx(nextLRH[h-1])),
+				fmt.Sprintf("server chain#%d(n=%d): blocks 1..%d with %v transactions applied by BlockExecutor.ApplyBlock; DeliverTx results of block %d = %v; State.LastResultsHash after it = %X; LastResultsHash of header %d (State.MakeBlock) = %X",
+					k, n, h, ntxs, h, human, stateLRH[h-1], h+1, nextLRH[h-1]))
 		}
 		lc := &c20sLC{vals: vals}
 		cl := lrpc.NewClient(c20sNode{}, lc)
@@ -347,9 +433,19 @@ func TestVerifC20Server(t *testing.T) {
 				continue
 			}
 			q := q
-			view, err := node.TxSearch(bg, q.query, true, nil, &q.perPage, q.order)
-			if err != nil {
-				t.Fatalf("node tx_search: %v", err)
+			view, err := func() (v *ctypes.ResultTxSearch, err error) { // the handler itself may fail or panic on a wrong implementation
+				defer func() {
+					if p := recover(); p != nil {
+						v, err = nil, fmt.Errorf("panic in rpc/core TxSearch: %v", p)
+					}
+				}()
+				return node.TxSearch(bg, q.query, true, nil, &q.perPage, q.order)
+			}()
+			if err != nil || view == nil { // an honest node must answer: recorded as "not relayed"
+				cs.Add(id, "server/search", true,
+					vg.App("CSearch", lc.term(), vg.B(true), "[]", vg.L(blocksT), vg.B(false), "[]", vg.B(true)),
+					fmt.Sprintf("server chain#%d(n=%d): rpc/core TxSearch(%q, prove=true, per_page=%d, %s) gave no answer: %v", k, n, q.query, q.perPage, q.order, err))
+				continue
 			}
 			relayed, calls, msg := c20sRun(lc, func() error { _, e := cl.TxSearch(bg, q.query, true, nil, &q.perPage, q.order); return e })
 			var rs []string
